@@ -668,7 +668,10 @@ where
                         }
                     }
                 },
-                frame = self.outgoing_link_frames.recv() => {
+                // Once the channel is closed and drained, `recv()` is immediately
+                // ready with `None` on every poll; polling it again would turn the
+                // wait for the remote end into a busy loop.
+                frame = self.outgoing_link_frames.recv(), if !(self.outgoing_link_frames.is_closed() && self.outgoing_link_frames.is_empty()) => {
                     match frame {
                         Some(frame) => self.on_outgoing_link_frames(frame).await,
                         None => {
